@@ -290,6 +290,9 @@ type vScenario struct {
 	// next environment action of the script is issued in between.
 	CS     bool   `json:"cs"`
 	CSSeed uint64 `json:"csseed"`
+	// CSDir (with CS): the SCRIPT decides which waiting critical section runs next (step ["cs", <function>]); nothing
+	// is released between steps.  Scripts of this kind are behaviours of Conn.tla generated by TLC (ConnGenCS).
+	CSDir bool `json:"csdir"`
 	// RawInit (server side only): no handshake is performed; the script delivers `initialize` itself
 	// (step "init") and its handling is gated like any other handler (request tag "init").
 	RawInit bool `json:"rawinit"`
@@ -342,6 +345,10 @@ func (r *vRun) settle(allowEnv bool) bool {
 		if n == 0 {
 			r.csMu.Unlock()
 			return true
+		}
+		if allowEnv && r.sc.CSDir {
+			r.csMu.Unlock()
+			return false
 		}
 		opts := n
 		if allowEnv {
@@ -814,6 +821,24 @@ func (r *vRun) step(st []any) {
 			}
 			r.log.emit("notify.end", "n", n, "err", err != nil)
 		}()
+	case "cs":
+		// directed mode: release the longest-waiting critical section entered from the named function
+		want := "(*Connection)." + arg(1)
+		var w *vCSWaiter
+		r.csMu.Lock()
+		for i, x := range r.csWait {
+			if x.fn == want {
+				w = x
+				r.csWait = append(r.csWait[:i:i], r.csWait[i+1:]...)
+				break
+			}
+		}
+		r.csMu.Unlock()
+		if w != nil {
+			close(w.ch)
+		} else {
+			applied = false
+		}
 	case "holdcs":
 		n, _ := strconv.Atoi(arg(2))
 		r.csMu.Lock()
